@@ -130,3 +130,14 @@ func main() {
 	}
 	c(os.Args[2], a)
 }
+
+// safely runs f and returns the panic message, if f panicked ("" otherwise)
+func safely(f func()) (msg string) {
+	defer func() {
+		if r := recover(); r != nil {
+			msg = fmt.Sprintf("PANIC: %v", r)
+		}
+	}()
+	f()
+	return ""
+}
